@@ -36,7 +36,7 @@ def run(ctx):
     mas = analyses(ctx)
     res = []
     for m, ma in mas.items():
-        n, probs = ma.pair_problems(("W2", "W3", "W4"))
+        n, probs = ma.pair_problems(("W2", "W3", "W4", "E4"))
         res.append(("W2-W4 link-change pairs", n, probs))
         n, probs = ma.loopcheck_problems()
         res.append(("W5 attaches preceded by loop check", n, probs))
